@@ -1059,7 +1059,7 @@ func fail(format string, a ...any) {
 }
 
 // frameObligations: everything not listed in mods is unchanged between st0 and st1.
-func (vc *FnVC) frameObligations(f *frame, guard string, st0, st1 *state, mods []ModLoc, kind string, props []string, atExit bool) {
+func (vc *FnVC) frameObligations(f *frame, guard string, st0, st1 *state, mods []ModLoc, kind string, props []string, atExit bool, scalarRef ...*state) {
 	star := false
 	whole := map[string]bool{}
 	single := map[string][]string{} // key -> list of Ref terms
@@ -1129,6 +1129,13 @@ func (vc *FnVC) frameObligations(f *frame, guard string, st0, st1 *state, mods [
 			}
 			vc.oblige(kind, label, and(guard, and(conds...)), eq("(select "+t1+" "+r+")", "(select "+t0+" "+r+")"), f.fn.Pos(), "frame: "+k+" unchanged outside the modifies clause", props)
 		} else {
+			if len(scalarRef) > 0 && scalarRef[0] != nil {
+				// loop frame of a scalar (ghost / global): the body leaves it as it was on loop entry
+				t0 = vc.hget(scalarRef[0], k)
+				if t0 == t1 {
+					continue
+				}
+			}
 			vc.oblige(kind, label, guard, eq(t1, t0), f.fn.Pos(), "frame: "+k+" unchanged", props)
 		}
 	}
@@ -1873,7 +1880,7 @@ func (f *frame) closeLoops(visited map[*ssa.BasicBlock]bool) {
 			if lm, own := f.c.LoopMod[li.ordinal]; own {
 				vc.frameObligations(f, cond, li.preSt, st, lm, fmt.Sprintf("loopframe%d", li.ordinal), f.c.Props, false)
 			} else if f.c.HasMod {
-				vc.frameObligations(f, cond, f.oldSt, st, f.c.Modifies, fmt.Sprintf("loopframe%d", li.ordinal), f.c.Props, false)
+				vc.frameObligations(f, cond, f.oldSt, st, f.c.Modifies, fmt.Sprintf("loopframe%d", li.ordinal), f.c.Props, false, li.preSt)
 			}
 		}
 	}
@@ -1913,7 +1920,18 @@ func (f *frame) term(v ssa.Value) string {
 func (f *frame) symTerm(s *sym) string {
 	if s.pl != nil && s.t == "" {
 		vc := f.vc
-		// an interior address escapes as a first-class value: model it as an opaque non-nil pointer
+		if s.pl.kind == plField && s.pl.root != "" {
+			// the address of a field is a function of the object: &x.mu denotes the same pointer every time
+			fn := "faddr_" + mangle(vc.fieldKey(s.pl.rootT, s.pl.path))
+			if !vc.declared[fn] {
+				vc.declared[fn] = true
+				vc.emit(fmt.Sprintf("(declare-fun %s (Ref) Ref)", fn))
+				vc.emit(fmt.Sprintf("(assert (forall ((fa Ref)) (! (not (= (%s fa) nil)) :pattern ((%s fa)))))", fn, fn))
+			}
+			s.t = vc.define("addr", "Ref", "("+fn+" "+s.pl.root+")")
+			return s.t
+		}
+		// any other interior address escapes as a first-class value: an opaque non-nil pointer
 		key := "addr"
 		s.t = vc.fresh(key, "Ref")
 		vc.assume("true", not(eq(s.t, "nil")))
